@@ -117,6 +117,12 @@ def source_text(world, s, m):
         return good.replace('IMPORTS ', 'IMPORTS w%s FROM %sX\n    ' % (m, m), 1) + mate_text(m)
     if kind == 'misnamed':
         return module_text(world, m, variant, name=m + 'REAL')
+    if kind == 'misnamedbroken':
+        # a file named unlike its only module, and that module hangs below a parent nobody defines
+        return broken_text(world, m, variant).replace('%s DEFINITIONS' % m, '%sREAL DEFINITIONS' % m, 1)
+    if kind.startswith('only'):
+        # a file that holds nothing but a copy of ANOTHER user module
+        return module_text(world, kind[4:], MATE_VARIANT)
     # --- files holding a module whose symbol table cannot be built (really: an OID parent nobody defines) next to others
     if kind == 'brokenfirst':
         return broken_text(world, m, variant) + mate_text(m)
@@ -148,6 +154,10 @@ def file_entries(world, s, m):
         out = [(m, True, v), (m + 'X', True, 0)]
     elif kind == 'misnamed':
         out = [(m + 'REAL', True, v)]
+    elif kind == 'misnamedbroken':
+        out = [(m + 'REAL', False, v)]
+    elif kind.startswith('only'):
+        out = [(kind[4:], True, MATE_VARIANT)]
     elif kind in ('dupsym', 'unktype'):
         out = [(m, False, v)]
     elif kind == 'brokenfirst':
@@ -445,13 +455,16 @@ def reference(world):
         seen.add(m)
         if m in env.BASE_NAMES:
             continue
-        if m in parsed:
+        if m in parsed and not req:
             continue   # the module of that name has arrived already, inside a file known under another name
+        # (a REQUESTED name is a file name: the file is read even when a module of that name is known from elsewhere)
         if m not in users:
-            failed.setdefault(m, set(['missing']))
+            if m not in parsed:
+                failed.setdefault(m, set(['missing']))
             continue
         answers = [world.get('src', {}).get('%s%d' % (m, s), 'ok' if s == 0 else 'notfound') for s in range(nsrc)]
         accepted = False
+        answered = False           # a source answered the name with a file that holds modules
         source_failed = False      # a source failed on the NAME m (reader error, text that does not parse)
         for s, a in enumerate(answers):
             if s < asked_upto.get(m, 0):
@@ -475,6 +488,7 @@ def reference(world):
                     source_failed = True
                 continue
             broken_here = set()
+            answered = True
             for c, ok, var in ents:
                 if c in parsed:
                     continue     # the copy that came first stays (sound or not, a further copy changes nothing)
@@ -505,6 +519,8 @@ def reference(world):
                     todo.extend((i, False) for i in imports.get(c[:-4], []))
             if m in broken_here:
                 continue      # the module asked for is the broken one of this file: a later source may have a sound copy
+            if req and not any(c in parsed for c, ok, var in ents):
+                continue      # nothing sound in the file asked for: a later source may do better
             if not req and m not in parsed:
                 # m is known from an IMPORTS clause, so it names a MODULE; this file holds modules called differently
                 continue
@@ -512,7 +528,8 @@ def reference(world):
                 failed.pop(m, None)   # an earlier source failed on this name, this one answers it
             accepted = True
             break
-        if not accepted and m not in failed and m not in parsed:
+        if not accepted and m not in failed and m not in parsed and not (req and answered):
+            # (a file name that was answered: the modules found under it carry the statuses)
             failed[m] = set(['missing'])
 
     ref = {'allowed': {}, 'writes': {}, 'payload': {}, 'gen': set(), 'nogen': set()}
@@ -537,6 +554,16 @@ def reference(world):
         # (module_text() hangs the module's own node below the node imported LAST; the other imports are only listed)
         cascade = c in (base, base + 'REAL') and any(
             b not in parsed and (b == used_import or (b == base and c != base)) for b in out_edges)
+        # ... and so does a module further up the chain of used imports: the OID of the parent is resolved to the root, through
+        # the symbol table of every module on the way (that a module on the way fails LATER, in code generation, does not matter)
+        cur, hops = used_import, set([base])
+        while cascade is False and c in (base, base + 'REAL') and cur is not None and cur not in hops:
+            hops.add(cur)
+            if cur not in parsed:
+                cascade = True
+                break
+            cur_edges = [b for a, b in world.get('edges', []) if a == cur]
+            cur = ([b for b in cur_edges if b != cur] or [None])[-1]
         # (a module filed under another name that imports "itself" by the file name imports a module that does not exist,
         # and the imported symbol collides with its own)
         if cascade or c in world.get('generr', []) or (kind_of.get(c) in ('badimport', 'badrange') and c == base):
